@@ -58,6 +58,10 @@ def run(ctx):
     splice(ctx, sv)
     end_rule(ctx)
     present(ctx, fi, sv)
+    # "never a panic": the emptiness assertions on pooled buffers hold because pools only receive cleared buffers,
+    # also when a record is abandoned half-way (shared with C14)
+    from .c14 import pool_rule
+    pool_rule(ctx)
 
 
 def fieldidx(ctx, fi):
